@@ -1,4 +1,5 @@
 import Zstd.Proofs.FrameDecoderFollows
+import Zstd.Props.C15
 /-
 C08 — Content checksums are computed over exactly the delivered bytes (decoder side).
 
@@ -193,5 +194,29 @@ example : (applyDrain (runOps (({} : Decoder).reset demoFrame).1 [.blocks (demoF
 
 example : (applyDrain (runOps (({} : Decoder).reset demoFrame).1 [.blocks (demoFrame.drop 6) .all]).1
     (.toWriter 2 [.accept 1, .fail])).1.hashed = #[97] := by decide +kernel
+
+/-! ## Compressor side
+
+"every frame written by the compressor (hashing enabled) ends with the correct checksum of its input, also when the
+compressor is reused": the compressor state `c` below is ARBITRARY — any level, any remembered Huffman table, any
+hasher state left by earlier frames (`c.hasher`), any matcher position — so the statement covers every reuse history.
+It rests on the two source facts `Gen.frameReseedsHasher` (`compress()` re-seeds the hasher before it reads) and
+`Gen.hashesInputBlock` (what is hashed is exactly each block read), both extracted from `frame_compressor.rs` on
+every run; moving the re-seed elsewhere or hashing another slice makes `Gen` change and this proof fail. -/
+
+open Zstd.Model.Enc Zstd.Proofs.Enc in
+/-- the four bytes after the last block are the little-endian low 32 bits of XXH64 (seed 0) of exactly the input, for
+every input, fragmentation of the source, block encoder, matcher and compressor state (fresh or reused) -/
+theorem compressor_checksum_of_input {H : Type} (enc : BlockEnc H) (c : Compressor H) (w : Nat)
+    (script : Nat → MBlock) (data : List Byte) (frags : List Nat) (hm : Props.C15.SaneMatcher w script)
+    (frame : List Byte) (c' : Compressor H)
+    (hrun : compressFrame true enc c w script data frags = .ok (frame, c')) :
+    ∃ recs, walkBlocks frame.length (frame.drop 6) = some (recs, leBytes 4 (Spec.Xxh64.checksum32 data)) := by
+  simpa using Props.C15.nothing_after_last_but_checksum true enc c w script data frags hm frame c' hrun
+
+open Zstd.Model.Enc Zstd.Proofs.Enc in
+/-- the header announces the checksum exactly when hashing is enabled (Content_Checksum_flag = bit 2 of the descriptor) -/
+theorem compressor_checksum_flag (hash : Bool) : (frameDescriptor hash / 4) % 2 = (if hash then 1 else 0) := by
+  cases hash <;> decide
 
 end Zstd.Props.C08
